@@ -6,6 +6,6 @@ OUT=${2:-/var/tmp/seedall.txt}
 for d in $SRC/C*/; do
   id=$(basename $d)
   echo "=== $id" >> $OUT
-  /verif/tools/seedtest.sh $d $id both 2>&1 | grep -E "suite-with-patch|demo on|VIOLATION|done:|PATCH|cannot apply|not clean" | head -12 >> $OUT
+  /verif/tools/seedtest.sh $d $id ${MODE:-both} 2>&1 | grep -E "suite-with-patch|demo on|VIOLATION|done:|PATCH|cannot apply|not clean" | head -12 >> $OUT
 done
 echo finished >> $OUT
